@@ -29,9 +29,10 @@ T0 = (2020, 3, 1, 0, 0, 0, 0)
 NAN = float("nan")
 
 C01_OPS = ("create", "update", "remove", "setitem", "setitem_delete", "setitem_func", "setobs",
-           "add_af", "operate", "apply", "aggregate", "correlator", "expr", "expr_noeq", "rejected")
+           "add_af", "operate", "operate_list", "apply", "aggregate", "correlator", "expr", "expr_noeq", "rejected")
 C04_OPS = ("add_obs", "sort", "insert_chrono", "insert_at", "remove_list", "remove_obs", "remove_first",
-           "remove_last", "extract", "span", "concat", "mod_n", "mod_pattern", "gt", "lt")
+           "remove_last", "extract", "span", "concat", "mod_n", "mod_pattern", "gt", "lt", "set_obs",
+           "fork_reverse", "fork_span", "edit_time")
 C17_OPS = ("abs_curv", "speed")
 
 
@@ -174,8 +175,11 @@ class TrackWorld(World):
         return self.counter + 0.5
 
     def _tag(self):
+        # unique and exactly representable, but tiny: the heights of two fixes never differ by
+        # more than a fraction of a millimetre, so the tag cannot interfere with anything
+        # that compares positions with a tolerance
         self.tagc += 1
-        return float(self.tagc)
+        return self.tagc * 2.0 ** -24
 
     def _gen_obs(self, r):
         k = r.randrange(self.cfg["n_instants"]) * r.choice([1, 1, 7])
@@ -185,8 +189,8 @@ class TrackWorld(World):
             tf[6] = r.choice([1, 500, 999])
         # z carries the unique tag of the observation (no operation of the workload writes z);
         # x and y repeat so that zero-length legs and revisited positions occur
-        return [r.choice([0.0, 1.0, 3.5, -2.0, 1000.25, r.uniform(-50, 50)]),
-                r.choice([0.0, 2.0, -1.5, 0.001, r.uniform(-50, 50)]), self._tag(), tf]
+        return [r.choice([0.0, 1.0, 1.00002, 3.5, -2.0, 1000.25, r.uniform(-50, 50)]),
+                r.choice([0.0, 0.00001, 2.0, -1.5, 0.001, r.uniform(-50, 50)]), self._tag(), tf]
 
     def _gen_size(self, r):
         b = self.cfg["size_bias"]
@@ -197,8 +201,11 @@ class TrackWorld(World):
         return r.randint(0, 17)
 
     def _gen_value(self, r, n):
-        if r.random() < 0.5:
+        k = r.random()
+        if k < 0.5:
             return [self._uval() for _ in range(n)]
+        if k < 0.58:
+            return "v%d" % int(self._uval())        # text-valued features are legal (the CSV reader stores them)
         return self._uval()
 
     def gen(self, rngs):
@@ -264,7 +271,8 @@ class TrackWorld(World):
         return {"name": self._pick_name(r, m), "func": r.choice(["affine", "next_x"]), "base": self._uval()}
 
     def _g_add_af(self, r, m):
-        return {"name": self._pick_name(r, m), "func": r.choice(["affine", "next_x"]), "base": self._uval()}
+        return {"name": self._pick_name(r, m), "func": r.choice(["affine", "next_x"]), "base": self._uval(),
+                "byname": r.random() < 0.3}
 
     def _g_setobs(self, r, m):
         return {"name": self._pick_name(r, m, True), "i": r.randrange(64), "value": self._uval(),
@@ -283,6 +291,24 @@ class TrackWorld(World):
         opr = r.choice(SCALAR)
         arg = r.choice([-2, -1, 0, 1, 2, 3]) if opr == "SHIFT" else r.choice([2.0, 3.0, 0.5, -1.0])
         return {"opr": opr, "in1": self._pick_input(r, m), "arg": arg, "out": out}
+
+    def _g_operate_list(self, r, m):
+        k = r.choice([1, 2, 2, 3])
+        kind = r.choice(["u", "b", "s"])
+        st = {"kind": kind, "ins": [self._pick_input(r, m) for _ in range(k)],
+              "outs": r.sample(list(self.cfg["names"]) * 2, k) if r.random() < 0.8 else None}
+        if st["outs"] is not None and len(set(st["outs"])) != k:
+            st["outs"] = list(dict.fromkeys(st["outs"]))[:k]
+            st["ins"] = st["ins"][: len(st["outs"])]
+        if kind == "u":
+            st["opr"] = r.choice(UNARY)
+        elif kind == "b":
+            st["opr"] = r.choice(BINARY)
+            st["ins2"] = [self._pick_input(r, m) for _ in range(len(st["ins"]))]
+        else:
+            st["opr"] = r.choice(SCALAR[:3])
+            st["arg"] = r.choice([2.0, 0.5, -1.0])
+        return st
 
     def _g_apply(self, r, m):
         return {"in1": self._pick_input(r, m), "f": r.choice(["half", "plus7", "neg"]),
@@ -306,7 +332,8 @@ class TrackWorld(World):
 
     def _g_rejected(self, r, m):
         return {"kind": r.choice(["update_unknown", "remove_unknown", "create_reserved", "read_unknown",
-                                  "setobs_unknown", "delete_unknown"]),
+                                  "setobs_unknown", "delete_unknown", "expr_unknown", "expr_unknown"]),
+                "a": self._pick_input(r, m), "b": self._pick_input(r, m), "out": self._pick_name(r, m),
                 "name": self._pick_name(r, m, False), "reserved": r.choice(RESERVED)}
 
     def _g_add_obs(self, r, m):
@@ -314,6 +341,22 @@ class TrackWorld(World):
 
     def _g_sort(self, r, m):
         return {}
+
+    def _g_set_obs(self, r, m):
+        return {"obs": self._gen_obs(r), "i": r.randrange(64), "api": r.choice(["setitem", "setObs"])}
+
+    def _g_fork_reverse(self, r, m):
+        return {"to": r.randrange(self.cfg["sessions"])}
+
+    def _g_fork_span(self, r, m):
+        st = self._g_span(r, m)
+        if r.random() < 0.5:
+            st["t1"], st["t2"] = list(T0), [2020, 3, 1, 0, 59, 59, 999]      # whole track
+        st["to"] = r.randrange(self.cfg["sessions"])
+        return st
+
+    def _g_edit_time(self, r, m):
+        return {"i": r.randrange(64), "field": r.choice(["sec", "sec", "min", "ms"]), "delta": r.choice([1, 2, 5, -1])}
 
     def _g_insert_chrono(self, r, m):
         if not self._sorted(m) and not m["names"]:
@@ -643,7 +686,11 @@ class TrackWorld(World):
         if len(m["obs"]) == 0 or st["name"] in RESERVED:
             raise Skip()
         f, exp = self._func(st, m)
-        rv, exc = self.call(t.addAnalyticalFeature, f, st["name"])
+        if st.get("byname"):
+            f.__name__ = st["name"]           # documented default: the feature is named after the function
+            rv, exc = self.call(t.addAnalyticalFeature, f)
+        else:
+            rv, exc = self.call(t.addAnalyticalFeature, f, st["name"])
         if exc is not None:
             return self._unexpected("C01", exc, "addAnalyticalFeature")
         self._setcol(m, st["name"], exp)
@@ -719,9 +766,11 @@ class TrackWorld(World):
         raise HarnessError(opr)
 
     def _input_ok(self, m, name):
+        """Readable and numeric (arithmetic on text-valued features is the caller's error)."""
         if name in ("x", "idx", "y"):
             return True
-        return name in m["names"]
+        return name in m["names"] and all(isinstance(v, (int, float)) and not isinstance(v, bool)
+                                          for v in self._col(m, name))
 
     def op_operate(self, st):
         from tracklib.core import Operator
@@ -757,6 +806,50 @@ class TrackWorld(World):
                       jsonable(exp), jsonable(list(rv)))
         self._check_all("C01", "operate " + opr)
         self.observed(jsonable(exp))
+
+    def op_operate_list(self, st):
+        """operate(Operator.X, [in...], ..., [out...]): the documented list form; the pairs
+        are processed in order, so a later pair reads what an earlier one wrote."""
+        from tracklib.core import Operator
+        t, m = self._sess(st)
+        n = len(m["obs"])
+        ins, outs = list(st["ins"]), st.get("outs")
+        if n == 0 or not ins:
+            raise Skip()
+        if outs is None:
+            outs = list(ins)
+        if len(outs) != len(ins) or any(o in RESERVED for o in outs):
+            raise Skip()
+        # every input must be readable when its pair is processed
+        avail = set(nm for nm in list(m["names"]) + ["x", "y", "idx"] if self._input_ok(m, nm))
+        ins2 = st.get("ins2")
+        for k, i1 in enumerate(ins):
+            if i1 not in avail or (ins2 and ins2[k] not in avail):
+                raise Skip()
+            avail.add(outs[k])
+        real_op = getattr(Operator, st["opr"])
+        if st["kind"] == "u":
+            args = (real_op, list(ins)) if st.get("outs") is None else (real_op, list(ins), list(outs))
+        elif st["kind"] == "b":
+            args = (real_op, list(ins), list(ins2)) if st.get("outs") is None else \
+                (real_op, list(ins), list(ins2), list(outs))
+        else:
+            args = (real_op, list(ins), st["arg"]) if st.get("outs") is None else \
+                (real_op, list(ins), st["arg"], list(outs))
+        _, exc = self.call(t.operate, *args)
+        if exc is not None:
+            return self._unexpected("C01", exc, "operate(Operator.%s, lists)" % st["opr"])
+        for k, i1 in enumerate(ins):
+            x = self._col(m, i1)
+            if st["kind"] == "u":
+                exp = self._m_unary(st["opr"], x)
+            elif st["kind"] == "b":
+                exp = self._m_binary(st["opr"], x, self._col(m, ins2[k]))
+            else:
+                exp = self._m_scalar(st["opr"], x, st["arg"])
+            self._setcol(m, outs[k], exp)
+        self.probe("operator_applied_to_lists_of_features")
+        self._check_all("C01", "operate %s on lists" % st["opr"])
 
     def op_apply(self, st):
         from tracklib.core import Operator
@@ -810,7 +903,7 @@ class TrackWorld(World):
         from tracklib.core import Operator
         t, m = self._sess(st)
         if len(m["obs"]) < 2 or st["in1"] not in m["names"] or st["in2"] not in m["names"] \
-                or st["out"] in RESERVED:
+                or st["out"] in RESERVED or not self._input_ok(m, st["in1"]) or not self._input_ok(m, st["in2"]):
             raise Skip()
         for nm in (st["in1"], st["in2"]):
             col = self._col(m, nm)
@@ -878,7 +971,7 @@ class TrackWorld(World):
         sh = st["shape"]
         if sh == "reflex":
             out = st["a"]
-            if out not in m["names"]:
+            if out not in m["names"] or not self._input_ok(m, out):
                 raise Skip()
             text = "%s+=%s" % (out, self._lit(st["lit"]))
             exp = [v + float(st["lit"]) for v in self._col(m, out)]
@@ -968,6 +1061,20 @@ class TrackWorld(World):
             _, exc = self.call(t.getAnalyticalFeature, name)
         elif kind == "setobs_unknown":
             _, exc = self.call(t.setObsAnalyticalFeature, name, 0, 1.0)
+        elif kind == "expr_unknown":
+            # an expression naming a feature that does not exist, after an intermediate result
+            # has been materialised: refused (the library exits / raises), nothing may change
+            if not (self._input_ok(m, st.get("a", "")) and self._input_ok(m, st.get("b", ""))):
+                raise Skip()
+            _, exc = self.call(t.operate, "%s=(%s+%s)*%s" % (st["out"], st["a"], st["b"], name))
+            self.stats["fault_fired:rejected_request"] += 1
+            if exc is None:
+                self.fail("C01", "rejected.exception", "an expression naming the unknown feature %r must be refused"
+                          % name, "an exception / exit", "normal return")
+                return "raised"
+            self.probe("failed_expression_after_intermediate_result")
+            self._check_all("C01", "refused expression (nothing may change, no temporary may stay listed)")
+            return "rejected"
         else:
             _, exc = self.call(t.createAnalyticalFeature, st["reserved"], 1.0)
         self.stats["fault_fired:rejected_request"] += 1
@@ -995,6 +1102,89 @@ class TrackWorld(World):
         m["obs"].append(self._mobs(st["obs"]))
         m["geo"] += 1
         self._check_all("C04", "addObs")
+
+    def op_set_obs(self, st):
+        """Replace one observation in place (track[i] = obs / setObs): the history a
+        later sort or chronological insert has to cope with."""
+        t, m = self._sess(st)
+        self._no_feats(m)
+        n = len(m["obs"])
+        if n == 0:
+            raise Skip()
+        i = st["i"] % n
+        if st.get("api") == "setObs":
+            _, exc = self.call(t.setObs, i, self._mk_obs(st["obs"]))
+        else:
+            _, exc = self.call(t.__setitem__, i, self._mk_obs(st["obs"]))
+        if exc is not None:
+            return self._unexpected("C04", exc, "track[%d] = obs" % i)
+        m["obs"][i] = self._mobs(st["obs"])
+        m["geo"] += 1
+        self._check_all("C04", "track[%d] = obs" % i)
+
+    def op_fork_span(self, st):
+        """extractSpanTime copies the observations: its result is an independent
+        track and becomes a session of its own; whatever is done to either of
+        the two from now on must not show in the other."""
+        from tracklib.core import ObsTime
+        t, m = self._sess(st)
+        if not m["obs"]:
+            raise Skip()
+        a, b = tuple(st["t1"]), tuple(st["t2"])
+        lo, hi = min(a, b), max(a, b)
+        exp = [o for o in m["obs"] if lo <= tuple(o["t"]) <= hi]
+        if not exp:
+            raise Skip()
+        rv, exc = self.call(t.extractSpanTime, ObsTime(*st["t1"]), ObsTime(*st["t2"]))
+        if exc is not None:
+            return self._unexpected("C04", exc, "extractSpanTime")
+        self._check_derived("C04", rv, exp, m["names"], "extractSpanTime")
+        if self.violations:
+            return
+        to = st["to"]
+        nm = copy.deepcopy(m)
+        nm["obs"] = copy.deepcopy(exp)
+        nm["geo"] += 1
+        nm["fresh"] = {}
+        self.real[to], self.model[to] = rv, nm
+        self.derived.pop(to, None)
+        self.probe("span_copy_becomes_a_session")
+        self._check_all("C04", "extractSpanTime (result kept as a session)")
+
+    def op_edit_time(self, st):
+        """Edit a timestamp field in place (public attributes of ObsTime)."""
+        t, m = self._sess(st)
+        n = len(m["obs"])
+        if n == 0:
+            raise Skip()
+        i = st["i"] % n
+        idx = {"min": 4, "sec": 5, "ms": 6}[st["field"]]
+        cur = m["obs"][i]["t"][idx]
+        new = cur + st["delta"]
+        if not (0 <= new <= (999 if idx == 6 else 59)):
+            raise Skip()
+        ts = t.getObs(i).timestamp
+        setattr(ts, st["field"], new)
+        m["obs"][i]["t"][idx] = new
+        m["geo"] += 1
+        self.probe("timestamp_edited_in_place")
+        self._check_all("C04", "in-place edit of a timestamp")
+
+    def op_fork_reverse(self, st):
+        """reverse() returns a reversed copy; it becomes a session of its own."""
+        t, m = self._sess(st)
+        to = st["to"]
+        cp, exc = self.call(t.reverse)
+        if exc is not None:
+            return self._unexpected("C04", exc, "reverse")
+        nm = copy.deepcopy(m)
+        nm["obs"].reverse()
+        nm["geo"] += 1
+        nm["fresh"] = {}
+        self.real[to], self.model[to] = cp, nm
+        self.derived.pop(to, None)
+        self.probe("reversed_copy_becomes_a_session")
+        self._check_all("C04", "reverse")
 
     def _adopt_order(self, prop, t, m, pool, where):
         """The real order must be a permutation of `pool` in non-decreasing time;
